@@ -1364,8 +1364,51 @@ def r12_walk_prunes_only_inside_channels(repo=None):
     return r
 
 
+def r13_list_form_is_the_generator(repo=None):
+    """lsdrf is the list form of ilsdrf: 'exactly once ... in ascending file-time order within each channel' is established by the
+    generator, so the list form must return its items unchanged - all arguments forwarded, no filter, no set, no re-sorting, no
+    slice."""
+    r = Rule("C14.R13", "lsdrf returns what ilsdrf yields: all arguments forwarded, nothing filtered, re-ordered or cut")
+    m = pyfront.mod("list_drf", repo)
+    if "lsdrf" not in m.functions:
+        raise AnalysisError("list_drf.lsdrf not found")
+    f = m.fn("lsdrf")
+    rets = [x for x in ast.walk(f) if isinstance(x, ast.Return)]
+    if len(rets) != 1 or rets[0].value is None:
+        raise AnalysisError("lsdrf: one return statement expected")
+    v = rets[0].value
+    env = {a.targets[0].id: a.value for a in ast.walk(f) if isinstance(a, ast.Assign) and len(a.targets) == 1 and isinstance(a.targets[0], ast.Name)}
+    hops = 0
+    while isinstance(v, ast.Name) and v.id in env and hops < 4:
+        v = env[v.id]
+        hops += 1
+    inner = v.args[0] if isinstance(v, ast.Call) and pyfront.call_name(v) == "list" and len(v.args) == 1 and not v.keywords else v
+    if isinstance(inner, (ast.ListComp, ast.GeneratorExp)) and len(inner.generators) == 1 and not inner.generators[0].ifs \
+            and isinstance(inner.elt, ast.Name) and isinstance(inner.generators[0].target, ast.Name) and inner.elt.id == inner.generators[0].target.id:
+        inner = inner.generators[0].iter
+    site = "%s:%s lsdrf `%s`" % (m.rel, rets[0].lineno, norm(ast.unparse(rets[0].value))[:60])
+    if isinstance(inner, ast.Call) and pyfront.call_name(inner) == "ilsdrf":
+        sig = m.fn("ilsdrf")
+        own = [a.arg for a in f.args.args + f.args.kwonlyargs]
+        star = any(isinstance(a, ast.Starred) for a in inner.args) and any(k.arg is None for k in inner.keywords)
+        named = {k.arg for k in inner.keywords if k.arg} | {a.id for a in inner.args if isinstance(a, ast.Name)}
+        if (f.args.vararg is not None and f.args.kwarg is not None and star) or (own and set(own) <= named):
+            r.ok(site, "the generator's items, every argument forwarded")
+        else:
+            r.violation(m.rel, "lsdrf", norm(ast.unparse(inner))[:70], "not every argument of lsdrf reaches ilsdrf: the list form selects another "
+                        "set of files than the generator form", line=rets[0].lineno)
+    elif any(isinstance(c, ast.Call) and pyfront.call_name(c) in ("sorted", "set", "frozenset", "filter", "reversed", "dict.fromkeys") for c in ast.walk(v)) \
+            or any(isinstance(x, ast.comprehension) and x.ifs for x in ast.walk(v)) or any(isinstance(x, ast.Slice) for x in ast.walk(v)):
+        r.violation(m.rel, "lsdrf", norm(ast.unparse(rets[0].value))[:70], "the list form filters, re-orders or cuts what the generator yields: "
+                    "order within a channel (or the set itself) differs between lsdrf and ilsdrf", line=rets[0].lineno)
+    else:
+        raise AnalysisError("lsdrf: returned expression `%s` not recognised" % norm(ast.unparse(rets[0].value))[:60])
+    r.guard(1)
+    return r
+
+
 def rules(repo=None):
-    return [lambda: r12_walk_prunes_only_inside_channels(repo), lambda: r11_sort_keys_and_vanished_first_subdir(repo), lambda: r1_grammar(repo), lambda: r2_kind_tables(repo), lambda: r3_sorted_before_sliced(repo),
+    return [lambda: r13_list_form_is_the_generator(repo), lambda: r12_walk_prunes_only_inside_channels(repo), lambda: r11_sort_keys_and_vanished_first_subdir(repo), lambda: r1_grammar(repo), lambda: r2_kind_tables(repo), lambda: r3_sorted_before_sliced(repo),
             lambda: r4_robust_listing(repo), lambda: r5_lookback_complete(repo),
             lambda: r6_reverse_changes_only_the_order(repo), lambda: r7_window_end_inclusive(repo),
             lambda: r8_forward_fill_file_always_taken(repo), lambda: r9_grammar_names_that_are_not_times(repo),
@@ -1395,7 +1438,9 @@ EXPLANATION = (
     "selected sub-directory's listing the look-back loop is still reachable within the iteration. Does NOT decide the "
     'remaining window arithmetic (bisect positions). R12: who-may-modify the os.walk directory list inside the walk loop '
     'of ilsdrf: sort / sorted of the whole list, and emptying it under the recursion flag; a filter (comprehension with a'
-    ' condition, filter(), remove / pop) is a violation, anything else is not decided.')
+    ' condition, filter(), remove / pop) is a violation, anything else is not decided. R13: lsdrf returns '
+    "list(ilsdrf(...)) with every argument forwarded; a filter, set, re-sort or slice of the generator's items is a "
+    'violation.')
 TECHNIQUE = ('Python ast; regular-language algebra on folded regex constants; abstract execution of flag chains; sortedness typestate over the CFG; guarded-subscript dataflow; order/element interpretation of sequence expressions + partial evaluation of conditions for both values of a flag')
 ASSUMPTIONS = ["os.walk swallows listing errors by default", "Python regex semantics as modelled by vp.rx"]
 FILES = [LD]
